@@ -38,6 +38,10 @@ TRUSTED_BASE = [
 ]
 
 
+class ImplBroken(Exception):
+    """the implementation's objects are in a shape the harness cannot describe to the model (reported as a failing input)"""
+
+
 class InternalError(Exception):
     pass
 
@@ -357,6 +361,8 @@ def run_cases(res, cases, handler, compare=None):
             h = handler(case)
         except InternalError:
             raise
+        except ImplBroken as e:   # the harness could not even read the implementation's state (e.g. a line without section)
+            h = dict(ops=[], impl=[], viols=[("impl.malformed", str(e)[:300])], nontrivial=None, tag="malformed")
         except Exception as e:   # the implementation (or the handler) raised: report it as a failing input, not as a crash of the check
             tb = traceback.extract_tb(e.__traceback__)
             where = next((f"{os.path.relpath(f.filename, REPO)}:{f.lineno}" for f in reversed(tb) if f.filename.startswith(REPO)), None)
